@@ -14,6 +14,7 @@ import (
 	"time"
 
 	"gvc/internal/driver"
+	"gvc/internal/olayer"
 	"gvc/internal/smt"
 	"gvc/internal/vc"
 )
@@ -24,6 +25,8 @@ type Group struct {
 	Pkg   string   // short package name
 	Funcs []string // contract keys (Layer D)
 	Ghost []vc.GhostVar
+	NoVC  bool                          // Layer O: text-level obligations only
+	Only  func(r driver.ObResult) bool // filter of the obligations that belong to this property
 }
 
 // Property describes how one property is decided.
@@ -96,6 +99,27 @@ func Run(ctx *Ctx, p *Property, level string) int {
 			all = append(all, rs...)
 		}
 	}
+	for _, g := range p.Groups {
+		if g.Layer != "O" {
+			continue
+		}
+		b := olayer.NewBuilder(ctx.L.Contracts)
+		for _, fn := range g.Funcs {
+			rep, err := olayer.RunEntry(ctx.L, b, fn, olayer.RunOpts{NoVC: g.NoVC})
+			if err != nil {
+				fmt.Fprintf(os.Stderr, "gvc: engine error (property %s undecided): %v\n", p.ID, err)
+				return 2
+			}
+			rep.Solve(ctx.Runner)
+			fmt.Printf("  %s: %d paths (%d ok, %d error, %d infeasible, %d outside the grammar)\n", fn, rep.Paths, rep.OkPaths, rep.ErrPaths, rep.Infeasible, rep.OutOfGrammar)
+			for _, r := range rep.Results {
+				if g.Only != nil && !g.Only(r) {
+					continue
+				}
+				all = append(all, r)
+			}
+		}
+	}
 	if p.Extra != nil {
 		rs, err := p.Extra(ctx)
 		if err != nil {
@@ -150,6 +174,7 @@ func Run(ctx *Ctx, p *Property, level string) int {
 	var solverMs int64
 	var samples []interface{}
 	seenFinding := map[string]bool{}
+	hitFinding := map[string]bool{}
 	for _, n := range names {
 		a := byName[n]
 		funcs[a.fn] = true
@@ -164,13 +189,14 @@ func Run(ctx *Ctx, p *Property, level string) int {
 			total += a.n
 			discharged += a.ok
 			entry["verdict"] = "discharged"
-		} else if f, ok := open[n]; ok {
+		} else if f, ok := matchFinding(open, n); ok {
 			knownN += a.n
 			entry["verdict"] = "known-finding"
-			if !seenFinding[n] {
-				seenFinding[n] = true
-				fmt.Printf("KNOWN-FINDING: property=%s %s — %s\n", p.ID, n, f.What)
+			if !seenFinding[f.Obligation] {
+				seenFinding[f.Obligation] = true
+				fmt.Printf("KNOWN-FINDING: property=%s %s — %s\n", p.ID, f.Obligation, f.What)
 			}
+			hitFinding[f.Obligation] = true
 		} else {
 			total += a.n
 			discharged += a.ok
@@ -180,6 +206,9 @@ func Run(ctx *Ctx, p *Property, level string) int {
 			suffix := " no-failing-input-found"
 			fmt.Printf("VIOLATION property=%s replay=%s%s\n", p.ID, rp, suffix)
 			fmt.Printf("  failed obligation: %s (%s; %s)\n", n, a.failed[0].Status, a.failed[0].Pos)
+			if msg := firstLine(a.failed[0].Output); msg != "" {
+				fmt.Printf("  %s\n", msg)
+			}
 		}
 		oblList = append(oblList, entry)
 		if len(samples) < 6 && a.kind != "vacuity" {
@@ -188,7 +217,7 @@ func Run(ctx *Ctx, p *Property, level string) int {
 	}
 	// a listed open finding whose obligation no longer fails is reported (informational)
 	for n, f := range open {
-		if a := byName[n]; a == nil || len(a.failed) == 0 {
+		if !hitFinding[n] {
 			fmt.Printf("NOTE: known finding %q (%s) did not fail on this tree\n", n, f.What)
 		}
 	}
@@ -257,4 +286,57 @@ func writeReplay(ctx *Ctx, prop string, r driver.ObResult) string {
 	data, _ := json.MarshalIndent(rep, "", " ")
 	os.WriteFile(path, data, 0o644)
 	return path
+}
+
+func firstLine(s string) string {
+	for _, ln := range strings.Split(s, "\n") {
+		ln = strings.TrimSpace(ln)
+		if ln != "" && !strings.HasPrefix(ln, "[") {
+			if len(ln) > 300 {
+				ln = ln[:300] + "..."
+			}
+			return ln
+		}
+	}
+	return ""
+}
+
+// matchFinding: a finding names one obligation; '*' in it matches any run of
+// characters (used only to cover the arity / operand-class variants of the
+// same path and postcondition).
+func matchFinding(open map[string]Finding, name string) (Finding, bool) {
+	if f, ok := open[name]; ok {
+		return f, true
+	}
+	var keys []string
+	for k := range open {
+		keys = append(keys, k)
+	}
+	sort.Strings(keys)
+	for _, k := range keys {
+		if strings.Contains(k, "*") && globMatch(k, name) {
+			return open[k], true
+		}
+	}
+	return Finding{}, false
+}
+
+func globMatch(pat, s string) bool {
+	parts := strings.Split(pat, "*")
+	if !strings.HasPrefix(s, parts[0]) {
+		return false
+	}
+	s = s[len(parts[0]):]
+	for i := 1; i < len(parts); i++ {
+		p := parts[i]
+		if i == len(parts)-1 {
+			return strings.HasSuffix(s, p)
+		}
+		j := strings.Index(s, p)
+		if j < 0 {
+			return false
+		}
+		s = s[j+len(p):]
+	}
+	return true
 }
